@@ -16,6 +16,15 @@
 #include <time.h>
 #include <unistd.h>
 
+// Coverage builds (bin/anchor_coverage.py, -DVF_COVERAGE --coverage): flush the gcov counters of this
+// process before leaving it (workers and per-execution children leave through _exit, which skips atexit).
+#ifdef VF_COVERAGE
+extern "C" void __gcov_dump(void);
+static inline void vf_exit(int c) { __gcov_dump(); _exit(c); }
+#else
+static inline void vf_exit(int c) { _exit(c); }
+#endif
+
 namespace vf {
 
 const char *const kKindName[NKINDS] = {"free", "preempt", "timer", "cas", "wake", "mut"};
@@ -343,7 +352,7 @@ void Ctx::exit_pruned() {
   g_slot->result = RS_PRUNED;
   finalize_slot();
   fflush(stdout);
-  _exit(0);
+  vf_exit(0);
 }
 
 void Ctx::exit_fail(const std::string &sig, const std::string &msg) {
@@ -354,7 +363,7 @@ void Ctx::exit_fail(const std::string &sig, const std::string &msg) {
   if (tracing_) printf("  FAIL %s: %s\n", sig.c_str(), msg.c_str());
   finalize_slot();
   fflush(stdout);
-  _exit(0);
+  vf_exit(0);
 }
 
 bool Ctx::covered(const H128 &h0) {
@@ -669,7 +678,7 @@ void worker_loop(int w, bool resume) {
         run_exec(false);
         fflush(stdout);
         fflush(stderr);
-        _exit(0);
+        vf_exit(0);
       }
       int st = 0;
       while (waitpid(c, &st, 0) < 0 && errno == EINTR) {}
@@ -685,7 +694,7 @@ void worker_loop(int w, bool resume) {
           run_exec(false);
           fflush(stdout);
           fflush(stderr);
-          _exit(0);
+          vf_exit(0);
         }
         while (waitpid(c2, &st, 0) < 0 && errno == EINTR) {}
       }
@@ -710,7 +719,7 @@ void worker_loop(int w, bool resume) {
   }
   fflush(stdout);
   fflush(stderr);
-  _exit(0);
+  vf_exit(0);
 }
 
 void load_known_findings() {
@@ -758,7 +767,7 @@ int replay_in_child(const Pos *st, int depth, bool tracing, std::string *sig, ui
     run_exec(tracing);
     fflush(stdout);
     fflush(stderr);
-    _exit(0);
+    vf_exit(0);
   }
   int stt = 0;
   while (waitpid(c, &stt, 0) < 0 && errno == EINTR) {}
